@@ -399,6 +399,16 @@ func (ex *Exec) callWith(c *ast.CallExpr, calleeName string, con *Contract, sig 
 			names[n] = args[i]
 		}
 	}
+	if con != nil {
+		// the contract's own parameter names, by position
+		if cn := contractParamNames(con.Sig); len(cn) == len(pnames) {
+			for i, n := range cn {
+				if _, taken := names[n]; !taken && i < len(args) {
+					names[n] = args[i]
+				}
+			}
+		}
+	}
 	pre := ex.st.clone()
 	ex.callOrd[calleeName]++
 	ord := ex.callOrd[calleeName]
@@ -773,6 +783,13 @@ func (ex *Exec) callExternal(c *ast.CallExpr, o *types.Func, args []Term, argTyp
 		return []Term{ufun("reMatch", SBool, args[0], args[1])}
 	case "regexp.Regexp.ReplaceAllString":
 		return []Term{ufun("reReplaceAll", SString, Term{args[0].S, SInt}, args[1], args[2])}
+	case "bytes.NewBufferString":
+		// the same buffer as bytes.NewBuffer([]byte(s))
+		bs := ex.U.SeqOf(SInt)
+		f := ex.U.DeclareFun("stringToBytes", []*Sort{SString}, bs)
+		r := ufun("bytesBuffer", ex.U.SortOf(sig.Results().At(0).Type()), Term{app(f.Name, args[0]), bs})
+		ex.fact(Term{"(> " + r.S + " 0)", SBool})
+		return []Term{Term{r.S, ex.U.SortOf(sig.Results().At(0).Type())}}
 	case "bytes.NewBuffer":
 		r := ufun("bytesBuffer", ex.U.SortOf(sig.Results().At(0).Type()), args[0])
 		ex.fact(Term{"(> " + r.S + " 0)", SBool})
